@@ -141,6 +141,7 @@ def churn_shard(shard, nshards, seed, tier, exe, nhist):
             model = {}
             uid = 10
             every = 1 if nops <= 100 else 7 if nops <= 1000 else 97
+            switch_at = rng.randrange(nops) if rng.random() < 0.25 else -1
             for j in range(nops):
                 k = rng.choice(uni)
                 r = rng.random()
@@ -172,12 +173,16 @@ def churn_shard(shard, nshards, seed, tier, exe, nhist):
                 else:
                     cmds.append("OGET 0 x%s" % k.hex())
                     plan.append(("get", k, k in model, model.get(k)))
+                if switch_at == j:
+                    # the process-wide string hash is switched while the object is alive: existing objects must keep answering (new ones use the new function)
+                    cmds.append("HASHFN %d" % (1 - hashfn))
+                    plan.append(("hashfn",))
                 if j % every == 0 or j == nops - 1:
                     cmds += ["OKEYS 0", "OLEN 0", "OSER 0"]
                     plan.append(("snap", list(model.items())))
             # delete-current-while-iterating at chosen positions
             mask = rng.getrandbits(min(len(model), 60)) if model else 0
-            cmds.append("OITDEL 0 %d" % mask)
+            cmds.append("OITDEL 0 %d%s" % (mask, " v" if rng.random() < 0.4 else ""))
             items = list(model.items())
             plan.append(("itdel", items, mask))
             for pos, (k, v) in enumerate(items):
@@ -266,6 +271,9 @@ def churn_shard(shard, nshards, seed, tier, exe, nhist):
                     sh.cmax("max_tombstones", int(d["tomb"]))
                     if int(d["live"]) + int(d["tomb"]) == int(d["size"]):
                         sh.count("snapshots_with_no_EMPTY_slot")
+                elif k == "hashfn":
+                    li += 1
+                    sh.count("op.hash_function_switched_on_live_object")
                 elif k == "itdel":
                     ln = lines[li]
                     li += 1
